@@ -16,6 +16,7 @@ RULE = (
     "alt, link title in \"\", '', (), reference-definition title, table cell, list item, block quote); commonmark and js-default with "
     "table+strikethrough, typographer off. Oracle: render(ctx(esc(t))) == frame(escapeHtml(t)) byte for byte. Non-trivial = t "
     "with >=1 ASCII punctuation character; distinct by (context, form, t, preset)."
+    " Table rows are also written without the closing pipe (t last on the line)."
 )
 ASSUMPTIONS = ["escapeHtml(t) replaces exactly & < > \"; NUL is expected as U+FFFD",
                "table cell written '| t |' (a pipe glued to a trailing backslash is row splitting, not inline content)"]
